@@ -499,3 +499,41 @@ def check(ctx, run):  # noqa: F811
     antithetic_rule(ctx, run, "C11.R10")
     from ..registry import reconfigure_rule
     reconfigure_rule(ctx, run, "C11.R10")
+    # R3e: the library's own engines honour the dtype request like torch.randn does: the requested dtype when one is given, the global default
+    # when none is (never a dtype fixed inside the engine)
+    from ..dtypes import DATA, DEFAULT, provenance
+    from ..interp import Obj
+    from ..term import Sym
+    prog, interp = ctx.prog, ctx.interp
+    N_, T_ = W.integer("N"), W.integer("T")
+    eng_cases = []
+    for fn in ("pfhedge.stochastic.random.randn_antithetic", "pfhedge.stochastic.random.randn_sobol_boxmuller"):
+        fi = prog.functions.get(fn)
+        if fi is None:
+            raise AnalysisError(f"anchor vanished: {fn}")
+        eng_cases.append((fn.rsplit(".", 1)[-1], fi, None))
+    ecls = "pfhedge.stochastic.engine.RandnSobolBoxMuller"
+    call = prog.lookup_method(ecls, "__call__")
+    if call is None:
+        raise AnalysisError("anchor vanished: RandnSobolBoxMuller.__call__")
+    eng_cases.append(("RandnSobolBoxMuller()", call, Obj(ecls, "engine", {"scramble": Sym("scramble", ("bool",)), "seed": Sym("seed")})))
+    run.require("C11.R3e", 6)
+    for label, fi, o in eng_cases:
+        for given, dt in (("a requested dtype", Sym("dtype")), ("no dtype request", None)):
+            try:
+                res = [r for r in interp.explore(fi, [N_, T_], dict(dtype=dt, device=Sym("device")), self_obj=o, max_paths=40) if not r["raises"]]
+            except Unsupported as ex:
+                raise AnalysisError(f"{label}: {ex}")
+            if not res:
+                raise AnalysisError(f"{label} ({given}): no analysable path")
+            bad = []
+            for r in res:
+                v, leaves = provenance(r["value"])
+                want = (DATA,) if dt is not None else (DEFAULT, DATA)
+                if v not in want:
+                    bad.append(f"produced in a {v} dtype ({'; '.join(sorted({w_ for _, w_ in leaves}))[:120]})")
+            bad = sorted(set(bad))
+            run.oblige("C11.R3e", f"{label} with {given}", not bad, "; ".join(bad) or ("the requested dtype" if dt is not None else "the global default dtype"))
+            if bad:
+                run.fail(Finding("C11.R3e", fi.qualname, f"{label} with {given}: " + "; ".join(bad)[:260], "the engine does not return the dtype torch.randn would return for the same request: "
+                                 "the series built from it is not in the requested (or default) dtype", file=str(prog.modules[fi.module].path), line=fi.node.lineno, case=given))
